@@ -276,6 +276,9 @@ fn blocked_oracle(rep: &mut CaseReport, hist: &History, broker: &Broker) {
     let mut epochs: Vec<Epoch<Option<String>>> = Vec::new();
     let mut last_open_ret_before_read: Vec<(usize, u64)> = Vec::new();
     let mut cur: Option<usize> = None;
+    // registration only *queues* the listener for the I/O thread; it is certainly installed once a later
+    // round trip of the owner (open_channel) has completed: (epoch, ret stamp of that round trip)
+    let mut installed_by: Vec<Option<u64>> = Vec::new();
     let mut last_roundtrip: Option<(u64, u64)> = None; // (invoke, ret) of the latest owner open_channel
     for c in &hist.conn {
         match c {
@@ -285,9 +288,17 @@ fn blocked_oracle(rep: &mut CaseReport, hist: &History, broker: &Broker) {
                     epochs[k].replaced = true;
                 }
                 epochs.push(Epoch { reg_ret: *ret, end_invoke: u64::MAX, items: vec![], replaced: false, dropped: false, old_disconnected: None, final_read_idx: 0, thread: 0 });
+                installed_by.push(None);
                 cur = Some(epochs.len() - 1);
             }
-            ConnRec::OpenChannel { for_thread: 0, invoke, ret, result: Ok(_), .. } => last_roundtrip = Some((*invoke, *ret)),
+            ConnRec::OpenChannel { for_thread: 0, invoke, ret, result: Ok(_), .. } => {
+                last_roundtrip = Some((*invoke, *ret));
+                if let Some(k) = cur {
+                    if installed_by[k].is_none() && *invoke > epochs[k].reg_ret {
+                        installed_by[k] = Some(*ret);
+                    }
+                }
+            }
             ConnRec::ReadBlocked { notes, .. } => {
                 if let Some(k) = cur {
                     epochs[k].items.extend(notes.iter().cloned());
@@ -314,7 +325,7 @@ fn blocked_oracle(rep: &mut CaseReport, hist: &History, broker: &Broker) {
             let s = &broker.sent[*sent_idx];
             // registered (call returned) before the notice entered the wire, and a later OpenOk reply exists
             // that was sent after the notice and belongs to a round trip started after the notice was sent
-            if e.reg_ret < s.stamp {
+            if installed_by[k].map(|r| r < s.stamp).unwrap_or(false) {
                 let later_reply = broker.sent[*sent_idx + 1..].iter().any(|x| matches!(&x.kind, SentKind::Reply { method: amq_protocol::protocol::AMQPClass::Channel(amq_protocol::protocol::channel::AMQPMethod::OpenOk(_)), .. }) && x.stamp > s.stamp);
                 let roundtrip_started_after = inv > s.stamp;
                 if later_reply && roundtrip_started_after && !e.items.contains(note) && e.end_invoke == u64::MAX {
@@ -331,7 +342,7 @@ impl Scenario for C13 {
         "C13"
     }
     fn rule(&self) -> String {
-        "Seeded sessions: 1-2 worker threads x 1-2 channels in confirm mode publishing (mandatory or not) while registering, replacing, dropping and reading confirm and return listeners at random points; the broker confirms with singles / multiples / nacks in random batches and returns about half of the mandatory publishes; the connection owner registers (and re-registers) a blocked listener while the broker emits Blocked/Unblocked notices at random times. Oracle (sound model of a racy registry): every listener's items form a contiguous, verbatim, in-order slice of its channel's event stream, slices of successive listeners are disjoint and in registration order; a listener whose registration returned before the publish was issued, and that was still current when a later round trip on the channel completed, holds the confirm / return that publish caused; a replaced listener's queue is disconnected one round trip later; with no listener or a dropped one every call still succeeds. Non-trivial = at least one listener was replaced or dropped while events were flowing and >= 3 events were forwarded; distinct = schedule trace hash.".to_string()
+        "Seeded sessions: 1-2 worker threads x 1-2 channels in confirm mode publishing (mandatory or not) while registering, replacing, dropping and reading confirm and return listeners at random points; the broker confirms with singles / multiples / nacks in random batches and returns about half of the mandatory publishes; the connection owner registers (and re-registers) a blocked listener while the broker emits Blocked/Unblocked notices at random times. Oracle (sound model of a racy registry): every listener's items form a contiguous, verbatim, in-order slice of its channel's event stream, slices of successive listeners are disjoint and in registration order; a listener whose registration returned before the publish was issued, and that was still current when a later round trip on the channel completed, holds the confirm / return that publish caused (for blocked notices, which no client request causes: a listener installed — registration followed by a completed open_channel round trip — before the notice was sent holds it); a replaced listener's queue is disconnected one round trip later; with no listener or a dropped one every call still succeeds. Non-trivial = at least one listener was replaced or dropped while events were flowing and >= 3 events were forwarded; distinct = schedule trace hash.".to_string()
     }
     fn plan(&self, thorough: bool, seed: u64) -> Vec<CaseSpec> {
         plan_random("C13", "listeners", seed, if thorough { 100_000 } else { 5_000 })
@@ -398,10 +409,16 @@ impl Scenario for C13 {
         }
         if cs.choose("blocked_listener", 4) != 0 {
             owner_ops.push(OwnerOp::ListenBlocked);
+            if cs.choose("roundtrip_after_listen", 3) != 0 {
+                owner_ops.push(OwnerOp::OpenChannel { id: None, keep: false });
+            }
             if cs.choose("relisten", 3) == 0 {
                 owner_ops.push(OwnerOp::SleepNs(1_000 * cs.choose("relisten_after_us", 4000) as u64));
                 owner_ops.push(OwnerOp::ReadBlocked);
                 owner_ops.push(OwnerOp::ListenBlocked);
+                if cs.choose("roundtrip_after_relisten", 3) != 0 {
+                    owner_ops.push(OwnerOp::OpenChannel { id: None, keep: false });
+                }
             }
             owner_ops.push(OwnerOp::JoinWorkers);
             owner_ops.push(OwnerOp::SleepNs(t + 2_000_000));
